@@ -491,7 +491,8 @@ Proof.
   - intros id m. apply creation_frame; auto.
   - intros k id r rest e m H E El _. destruct (take_nth_in _ _ _ _ E) as [Hp Hr].
     destruct H as [H1 H2 H3 H4 H5]. constructor; msimpl; auto.
-    intros c e' r' [Hin|Hin]; eauto. inversion Hin; subst; eauto.
+    + intros id0 r0 Hin. eauto.
+    + intros c e' r' [Hin|Hin]; eauto. inversion Hin; subst; eauto.
   - constructor; simpl; auto; try contradiction. constructor.
 Qed.
 
@@ -591,5 +592,5 @@ Proof.
   - rewrite map_rev. apply NoDup_rev. exact H2.
   - rewrite H3, <- map_rev. f_equal.
     generalize (ldones (mrun pp pj fl evs)). intros l. induction l as [|x l IH]; simpl; auto.
-    rewrite filter_app, <- IH. simpl. destruct (is_cancelled x); reflexivity.
+    rewrite filter_app, <- IH. simpl. destruct (is_cancelled x); simpl; rewrite ?app_nil_r; reflexivity.
 Qed.
